@@ -31,6 +31,10 @@ type clientSpec struct {
 	conc       int    // doh/doq: concurrent exchanges
 	finalShort bool   // stream: end the session with a sub-header frame
 	burstMax   int    // udp: most datagrams sent back to back
+	// failNonces: nonces of the round's failing names every client may ask
+	// ("<nonce>.shared.f.c10.test."): the first asker's SERVFAIL is recorded by
+	// the failure cache, everybody else is served from the cached failure.
+	failNonces []string
 }
 
 // sharedGroup is one question asked by several clients at about the same time.
@@ -72,9 +76,12 @@ var udpIDPool = []uint16{0x0000, 0x0001, 0x1234, 0xffff}
 type weights [nKinds]int
 
 var (
-	wUDP    = weights{kNormal: 38, kHit: 22, kShared: 6, kSlow: 6, kDecoded: 4, kLarge: 2, kPanic: 3, kDrop: 4, kBadClass: 2, kQR: 4, kShort: 2, kGarbage: 2, kBadCount: 2, kNotimp: 2, kOversize: 1}
-	wStream = weights{kNormal: 38, kHit: 22, kShared: 6, kSlow: 5, kDecoded: 4, kLarge: 4, kPanic: 3, kDrop: 4, kBadClass: 2, kQR: 4, kGarbage: 2, kBadCount: 2, kNotimp: 2}
-	wMsg    = weights{kNormal: 48, kHit: 24, kShared: 8, kSlow: 6, kDecoded: 4, kLarge: 2, kPanic: 3, kDrop: 3, kBadClass: 2}
+	wUDP    = weights{kNormal: 38, kHit: 24, kShared: 6, kSlow: 6, kDecoded: 4, kLarge: 2, kPanic: 3, kDrop: 4, kBadClass: 2, kQR: 4, kShort: 2, kGarbage: 2, kBadCount: 2, kNotimp: 2, kOversize: 1,
+		kSized: 7, kFail: 2, kFailHit: 9, kNX: 5, kEDE: 3}
+	wStream = weights{kNormal: 38, kHit: 24, kShared: 6, kSlow: 5, kDecoded: 4, kLarge: 4, kPanic: 3, kDrop: 4, kBadClass: 2, kQR: 4, kGarbage: 2, kBadCount: 2, kNotimp: 2,
+		kSized: 9, kFail: 2, kFailHit: 9, kNX: 5, kEDE: 3}
+	wMsg    = weights{kNormal: 48, kHit: 24, kShared: 8, kSlow: 6, kDecoded: 4, kLarge: 2, kPanic: 3, kDrop: 3, kBadClass: 2,
+		kSized: 4, kFail: 1, kFailHit: 4, kNX: 3, kEDE: 3}
 )
 
 func (w *weights) pick(rng *rand.Rand) qkind {
@@ -108,7 +115,28 @@ type genCtx struct {
 	groups []*sharedGroup
 	// questions already asked by this client that can be re-asked as hits
 	asked   []*query
+	failed  []*query // own failing questions (re-asked as kFailHit)
 	usedIDs map[string]map[uint16]bool
+	// sizedN, when > 0, is the RDATA size of the next sized question (else
+	// drawn); plain makes packets without random header bits and EDNS options,
+	// so the length of the reply is a known function of the question
+	sizedN int
+	plain  bool
+	// forceEDNS (plain mode): 1 = the packet carries a bare OPT, 2 = none, 0 = drawn
+	forceEDNS int
+}
+
+// sizedRange is the RDATA size range of a sized question per transport: UDP
+// stays near the usual limits (both sides of 1232 and of 512), streams go far
+// enough that a few replies fill the 8 KiB drain buffer.
+func sizedRange(tr string) (lo, hi int) {
+	switch tr {
+	case "udp":
+		return 100, 1300
+	case "tcp", "dot":
+		return 60, 3200
+	}
+	return 100, 2200
 }
 
 func (g *genCtx) pickID(key string) uint16 {
@@ -145,8 +173,44 @@ func (g *genCtx) genQuery(kind qkind) *query {
 		nameKind = "p"
 	case kDrop:
 		nameKind = "d"
+	case kFail:
+		nameKind = "f"
+	case kEDE:
+		nameKind = "e"
+	case kNX:
+		nameKind = "x" + string(rune('a'+rng.IntN(8)))
+	case kSized:
+		n := g.sizedN
+		if n <= 0 {
+			lo, hi := sizedRange(g.spec.tr)
+			n = lo + rng.IntN(hi-lo)
+		}
+		nameKind = fmt.Sprintf("t%d", n)
 	}
 	switch kind {
+	case kFailHit:
+		// a failing question asked before: one of this client's own, or one of
+		// the round's shared failing names (whoever asks first records it)
+		switch {
+		case len(g.spec.failNonces) > 0 && (len(g.failed) == 0 || rng.IntN(2) == 0):
+			q.Nonce = g.spec.failNonces[rng.IntN(len(g.spec.failNonces))]
+			q.Qtype = []uint16{dns.TypeA, dns.TypeTXT}[rng.IntN(2)]
+			q.Name = fmt.Sprintf("%s.shared.f.%s", q.Nonce, zoneSuffix)
+			if rng.IntN(3) == 0 {
+				q.Name = mixCase(rng, q.Name)
+			}
+		case len(g.failed) > 0:
+			o := g.failed[rng.IntN(len(g.failed))]
+			q.Nonce, q.Qtype = o.Nonce, o.Qtype
+			q.Name = o.Name
+			if rng.IntN(3) == 0 {
+				q.Name = mixCase(rng, strings.ToLower(o.Name))
+			}
+		default:
+			kind = kFail
+			q.Kind = kFail
+			nameKind = "f"
+		}
 	case kHit:
 		if len(g.asked) == 0 {
 			kind = kNormal
@@ -176,6 +240,9 @@ func (g *genCtx) genQuery(kind qkind) *query {
 	if q.Nonce == "" {
 		q.Nonce = newNonce(rng)
 		q.Qtype = pickType(rng)
+		if kind == kSized {
+			q.Qtype = dns.TypeTXT
+		}
 		q.Name = fmt.Sprintf("%s.%s.%s.%s", q.Nonce, g.spec.label, nameKind, zoneSuffix)
 		if rng.IntN(4) == 0 {
 			q.Name = mixCase(rng, q.Name)
@@ -189,8 +256,10 @@ func (g *genCtx) genQuery(kind qkind) *query {
 	q.ID = g.pickID(fmt.Sprintf("%s|%d|%d", strings.ToLower(q.Name), q.Qtype, q.Qclass))
 	g.buildPacket(q)
 	switch kind {
-	case kNormal, kShared, kSlow, kDecoded, kLarge:
+	case kNormal, kShared, kSlow, kDecoded, kLarge, kSized, kEDE:
 		g.asked = append(g.asked, q)
+	case kFail:
+		g.failed = append(g.failed, q)
 	}
 	q.KindS = q.Kind.String()
 	return q
@@ -202,13 +271,23 @@ func (g *genCtx) buildPacket(q *query) {
 	m.Id = q.ID
 	m.RecursionDesired = true
 	m.Question = []dns.Question{{Name: q.Name, Qtype: q.Qtype, Qclass: q.Qclass}}
-	if rng.IntN(10) == 0 {
+	if !g.plain && rng.IntN(10) == 0 {
 		m.CheckingDisabled = true
 	}
-	if rng.IntN(10) == 0 {
+	if !g.plain && rng.IntN(10) == 0 {
 		m.AuthenticatedData = true
 	}
 	edns := rng.IntN(4) != 0 || q.Kind == kLarge
+	if q.Kind == kSized && !g.plain {
+		edns = rng.IntN(8) != 0 // most sized replies must be able to leave whole over UDP
+	}
+	if g.plain {
+		edns = rng.IntN(2) == 0
+		if g.forceEDNS != 0 {
+			edns = g.forceEDNS == 1
+		}
+	}
+	q.edns = edns
 	if edns {
 		opt := new(dns.OPT)
 		opt.Hdr.Name = "."
@@ -217,13 +296,13 @@ func (g *genCtx) buildPacket(q *query) {
 		if rng.IntN(10) < 3 {
 			opt.SetDo()
 		}
-		if rng.IntN(10) < 4 {
+		if !g.plain && rng.IntN(10) < 4 {
 			s := sha256.Sum256([]byte(fmt.Sprintf("%s/%s/%d/%d", q.Nonce, g.spec.label, q.ID, rng.Uint32())))
 			q.Cookie = hex.EncodeToString(s[:8])
 			registry.cookies.Store(string(s[:8]), q.Nonce)
 			opt.Option = append(opt.Option, &dns.EDNS0_COOKIE{Code: dns.EDNS0COOKIE, Cookie: q.Cookie})
 		}
-		if rng.IntN(10) < 2 {
+		if !g.plain && rng.IntN(10) < 2 {
 			opt.Option = append(opt.Option, &dns.EDNS0_NSID{Code: dns.EDNS0NSID})
 		}
 		if q.Kind == kLarge {
